@@ -90,6 +90,24 @@ def summarise(I, n, it, st):
         if gen is None:
             for nm in assigned_names(n.body) | assigned_names([n.target]):
                 st.env[nm] = Opaque(f"loop over {type(it).__name__}")
+            # containers the skipped body stores into are no longer known: a dictionary becomes open, a list / local array opaque
+            touched = set()
+            for x in ast.walk(ast.Module(body=list(n.body), type_ignores=[])):
+                tg = []
+                if isinstance(x, ast.Assign): tg = x.targets
+                elif isinstance(x, ast.AugAssign): tg = [x.target]
+                for t in tg:
+                    if isinstance(t, ast.Subscript):
+                        b = t.value
+                        while isinstance(b, ast.Subscript): b = b.value
+                        if isinstance(b, ast.Name): touched.add(b.id)
+                if isinstance(x, ast.Call) and isinstance(x.func, ast.Attribute) and isinstance(x.func.value, ast.Name) and \
+                        x.func.attr in ("append", "extend", "update", "add", "insert", "setdefault", "pop", "clear", "appendleft"):
+                    touched.add(x.func.value.id)
+            for nm in touched:
+                cur = st.env.get(nm)
+                if isinstance(cur, DictVal): cur.open = True
+                elif isinstance(cur, (ListVal, LocalArr)): st.env[nm] = Opaque(f"container filled in a loop over {type(it).__name__}")
             return None
         ivar, count, value = gen
     names = assigned_names(n.body)
